@@ -99,3 +99,30 @@ contract(common.BASESER + ".cardinality_representation", params={"statement": St
 # ---- canaries
 contract(SHS + "._max_occurs_from_cardinality@canary", params={"cardinality": Card}, returns=Opt(Int),
     ensures=["implies(cardinality == '+', result == 1)"], props=["C11"], canary=True)
+
+# ---- one property shape per triple constraint: composition of the pieces above (fresh nodes: bn(0), bn(1), ...) -------------
+RTYPE = "ext_const('rdflib.RDF.type')"
+contract(SHS + "._add_bnode_property", params={"r_shape_uri": RNode, "r_constraint_node": RNode},
+    emits=["(r_shape_uri, %s, r_constraint_node)" % sh("property"), "(r_constraint_node, %s, %s)" % (RTYPE, sh("PropertyShape"))], **P)
+NODE_TYPE_EMITS = [e.replace("r_constraint_node", "bn(0)") for e in CONTRACTS[SHS + "._add_node_type"].emits]
+CARD_EMITS = [e.replace("r_constraint_node", "bn(0)") for e in CONTRACTS[SHS + "._add_cardinality"].emits]
+PATH_EMITS = ["(not statement._is_inverse, bn(0), %s, %s)" % (sh("path"), PURI),
+              "(statement._is_inverse, bn(0), %s, bn(1))" % sh("property"),
+              "(statement._is_inverse, bn(1), %s, %s)" % (sh("inversePath"), PURI)]
+contract(SHS + "._add_regular_constraint", params={"statement": Statement, "r_shape_uri": RNode},
+    requires=CONTRACTS[SHS + "._add_node_type"].requires + [HTTP],
+    emits=["(r_shape_uri, %s, bn(0))" % sh("property"), "(bn(0), %s, %s)" % (RTYPE, sh("PropertyShape"))] + NODE_TYPE_EMITS + CARD_EMITS + PATH_EMITS,
+    bnodes="ite(statement._is_inverse, 2, 1)", **P)
+contract(SHS + "._add_in_instance", params={"r_constraint_node": RNode, "statement": Statement},
+    requires=["has_class(statement, 'Statement')", "%s.startswith('http://') or %s.startswith('https://')" % (T_, T_)],
+    emits=["(r_constraint_node, %s, bn(0))" % sh("in"), "(bn(0), ext_const('rdflib.RDF.first'), uriref(%s))" % T_,
+           "(bn(0), ext_const('rdflib.RDF.rest'), ext_const('rdflib.RDF.nil'))"], bnodes="1", **P)
+contract(SHS + "._add_instantiation_constraint", params={"statement": Statement, "r_shape_uri": RNode},
+    requires=["has_class(statement, 'Statement')", "%s.startswith('http://') or %s.startswith('https://')" % (T_, T_), HTTP],
+    emits=["(r_shape_uri, %s, bn(0))" % sh("property"), "(bn(0), %s, %s)" % (RTYPE, sh("PropertyShape")),
+           "(bn(0), %s, %s)" % (sh("path"), PURI),
+           "(bn(0), %s, typed_lit(1, ext_const('rdflib.XSD.integer')))" % sh("minCount"),
+           "(bn(0), %s, typed_lit(1, ext_const('rdflib.XSD.integer')))" % sh("maxCount"),
+           "(bn(0), %s, bn(1))" % sh("in"), "(bn(1), ext_const('rdflib.RDF.first'), uriref(%s))" % T_,
+           "(bn(1), ext_const('rdflib.RDF.rest'), ext_const('rdflib.RDF.nil'))"], bnodes="2", **P)
+contract(SHS + "._add_shape_uri", params={"r_shape_uri": RNode}, emits=["(r_shape_uri, %s, %s)" % (RTYPE, sh("NodeShape"))], **P)
